@@ -120,6 +120,23 @@ def snap_diff(a, b):
     return None
 
 
+def _sql_site(t, r, dialect):
+    """class of the innermost node (last in breadth-first order) whose generated text differs between the two trees, which
+    have the same shape up to dropped None / [] args; None when the shapes differ"""
+    a, b = list(t.bfs()), list(r.bfs())
+    if len(a) != len(b):
+        return None
+    for x, y in zip(reversed(a), reversed(b)):
+        if type(x) is not type(y):
+            return None
+        try:
+            if x.sql(dialect=dialect or None) != y.sql(dialect=dialect or None):
+                return type(x).__name__
+        except Exception:
+            return type(x).__name__
+    return None
+
+
 def sql_all(tree, dialects):
     out = []
     for d in dialects:
@@ -241,8 +258,8 @@ def evaluate(t, site_of, dialects, always_sql, inp, st, informational=False, inf
             sql_r = sql_all(r, dialects)
             if sql_r != sql_t:
                 j = [x != y for x, y in zip(sql_t, sql_r)].index(True)
-                sd = snap_diff(strict_t, strict_r)  # the node at which the round-tripped tree first differs, if any
-                add(ch, "sql-differs", site_of(sd[1] if sd else None), f"dialect {dialects[j] or 'base'}: {str(sql_t[j])[:80]!r} -> {str(sql_r[j])[:80]!r}")
+                sd = _sql_site(t, r, dialects[j])  # the innermost node whose own text differs
+                add(ch, "sql-differs", site_of(sd), f"dialect {dialects[j] or 'base'}: {str(sql_t[j])[:80]!r} -> {str(sql_r[j])[:80]!r}")
 
 
 # ---------------------------------------------------------------------------------------------------
@@ -473,14 +490,22 @@ DIALECT_STATEMENTS = [
     ("SELECT CAST(somelist AS data_list) FROM t", "oracle"),
     ("SELECT CAST(x AS Nullable(String)), CAST(y AS LowCardinality(Nullable(String))) FROM t", "clickhouse"),
     ("SELECT CAST(1 AS mz_timestamp)", "materialize"),
+    # parser-built nodes that carry an explicit key=None, which dump drops although a generator asks `key in args` / args[key]
+    ("SELECT STRPOS(a, 'b')", "presto", ("tableau",)),
+    ("SELECT REGEXP_REPLACE(a, 'b') FROM t", "exasol", ("bigquery", "spark", "duckdb")),
+    ("SELECT REGEXP_REPLACE(a, 'b') FROM t", "duckdb", ("hive",)),
+    # a list arg holding None: a body-less procedure
+    ("CREATE PROCEDURE test(@v1 INTEGER = 1, @v2 CHAR(1) = 'c')", "tsql"),
+    ("CREATE PROCEDURE p AS", "tsql"),
+    ("SELECT * FROM UNNEST((SELECT [1, 2] AS a))", "bigquery"),
 ]
 
 
 def _plan(tier):
     ds = corpus.dialects()
     items = [("class", n) for n in expr_classes()]
-    for sql, read in DIALECT_STATEMENTS:
-        items.append(("corpus", sql, read, sorted({"", read, "duckdb"}), True))
+    for sql, read, *more in DIALECT_STATEMENTS:
+        items.append(("corpus", sql, read, sorted({"", read, "duckdb", *(more[0] if more else ())}), True))
     for sql in MARKER_STATEMENTS:
         items.append(("corpus", sql, "", DIALECTS8, True))
         items.append(("corpus", sql, "snowflake", DIALECTS8, False))
